@@ -57,6 +57,11 @@ mod verif_replay_w {
         }
         fn flush(&mut self) -> std::io::Result<()> { Ok(()) }
     }
+    struct ZeroAfter { left: usize }
+    impl std::io::Write for ZeroAfter {
+        fn write(&mut self, buf: &[u8]) -> std::io::Result<usize> { let n = buf.len().min(self.left); self.left -= n; Ok(n) }
+        fn flush(&mut self) -> std::io::Result<()> { Ok(()) }
+    }
     struct OneByte(Vec<u8>);
     impl std::io::Write for OneByte {
         fn write(&mut self, buf: &[u8]) -> std::io::Result<usize> { if buf.is_empty() { return Ok(0); } self.0.push(buf[0]); Ok(1) }
@@ -98,6 +103,24 @@ mod verif_replay_w {
                     Err(_) => { println!("W|{path}|short|PANIC"); break; }
                     Ok(Ok(())) => if pw.out != full { println!("W|{path}|short|DIFFERENT-OUTPUT"); break; },
                     Ok(Err(_)) => { println!("W|{path}|short|ERROR"); break; } }
+            }
+            // a sink that stops accepting bytes (Ok(0), like a full fixed buffer): generation must end with an error, not spin.
+            // Run on a thread of its own with a watchdog (the document is read again there: it is not Send).
+            for cut in [full.len() / 4, full.len() / 2, full.len() - full.len() / 8, full.len().saturating_sub(3)] {
+                let p2 = path.to_string();
+                let (tx, rx) = std::sync::mpsc::channel();
+                std::thread::spawn(move || {
+                    let files = match read_input_file_and_xsd_files_at_path(std::path::Path::new(&p2)) { Ok(f) => f, Err(_) => { let _ = tx.send("skip"); return; } };
+                    let doc = match XmlReader::read_xml(&files) { Ok(d) => d, Err(_) => { let _ = tx.send("skip"); return; } };
+                    let mut z = ZeroAfter { left: cut };
+                    let r = std::panic::catch_unwind(std::panic::AssertUnwindSafe(|| doc.write_xml(&mut z)));
+                    let _ = tx.send(match r { Err(_) => "PANIC", Ok(Ok(())) => "FALSE-SUCCESS", Ok(Err(_)) => "ok" });
+                });
+                match rx.recv_timeout(std::time::Duration::from_secs(15)) {
+                    Ok("ok") | Ok("skip") => {}
+                    Ok(what) => println!("W|{path}|full-sink@{cut}|{what}"),
+                    Err(_) => { println!("W|{path}|full-sink@{cut}|HANG"); println!("W|{path}|{n}|done"); std::process::exit(0); }
+                }
             }
             println!("W|{path}|{n}|done");
         }
